@@ -62,6 +62,23 @@ theorem R_nil : R [] = [] := rfl
 theorem R_flatMap {α : Type} (l : List α) (f : α → Str) : R (l.flatMap f) = l.flatMap (fun x => R (f x)) := by
   simp [R, replaceChar_flatMap]
 
+/-- verbose mode rewrites every other white-space character as `\u{…}` -/
+def vsp (c : Nat) : Str := if Gen.verboseSpaces.contains c then [92, 117, 123] ++ toHex c ++ [125] else [c]
+
+/-- the character-wise rewriting `Display for RegExp` applies to the whole text: always `\v`, `\f`; in verbose mode also
+`#`, the other white space and the blank -/
+def RV (v : Bool) (t : Str) : Str :=
+  if v then replaceChar 32 Gen.strBlank ((replaceChar 35 Gen.strHash (R t)).flatMap vsp) else R t
+
+theorem RV_false (t : Str) : RV false t = R t := rfl
+theorem RV_append (v : Bool) (a b : Str) : RV v (a ++ b) = RV v a ++ RV v b := by
+  cases v <;> simp [RV, R_append, replaceChar_append]
+theorem RV_nil (v : Bool) : RV v [] = [] := by cases v <;> rfl
+theorem RV_flatMap {α : Type} (v : Bool) (l : List α) (f : α → Str) : RV v (l.flatMap f) = l.flatMap (fun x => RV v (f x)) := by
+  induction l with
+  | nil => exact RV_nil v
+  | cons a as ih => simp only [List.flatMap_cons, RV_append, ih]
+
 /-- the final text of one code point -/
 def pc (x : Nat) : Str := R (core1 x)
 
